@@ -532,6 +532,20 @@ class Gen:
             params = re.sub(r"^\s*mut\s+self\b", "self", params, count=1)
             mut_self = True
             self.count("R2_mut_self")
+        # R8: tuple patterns in parameters  `(a, b): T`  ->  `arg0: T` + `let (a, b) = arg0;`
+        pre_lets = []
+        plist = split_top(params)
+        for n, prm in enumerate(plist):
+            if prm.strip().startswith("("):
+                ptoks = lex(prm)
+                close = match_close(ptoks, next(i for i, t in enumerate(ptoks) if t.text == "("))
+                pat = "".join(t.text for t in ptoks[:close + 1]).strip()
+                rest_p = "".join(t.text for t in ptoks[close + 1:])
+                plist[n] = f"arg{n}{rest_p}"
+                pre_lets.append(f"let {pat} = arg{n};")
+                self.count("R8_param_pattern")
+        if pre_lets:
+            params = ",".join(plist)
         retname = c.ret or "r"
         sig_out = pre + "(" + params + ")"
         if ret:
@@ -558,6 +572,8 @@ class Gen:
         body_first_line = toks[it.body_open].line
         body = it.text(it.body_open, it.body_close + 1)
         body = self.rewrite_body(body, relsrc, key, c, mut_self)
+        if pre_lets:
+            body = "{ " + " ".join(pre_lets) + body[1:]
         h = hashlib.sha256(it.full_text().encode()).hexdigest()[:16]
         rec["sha"] = h
         rec["kind"] = "fn"
@@ -728,7 +744,29 @@ class Gen:
         return out
 
 
+def split_top(text):
+    """split at top-level commas"""
+    toks = lex(text)
+    out, cur, depth = [], [], 0
+    for t in toks:
+        if t.kind == "punct" and t.text in "([{<":
+            depth += 1
+        elif t.kind == "punct" and t.text in ")]}>":
+            depth -= 1
+        if t.kind == "punct" and t.text == "," and depth == 0:
+            out.append("".join(cur))
+            cur = []
+        else:
+            cur.append(t.text)
+    if "".join(cur).strip():
+        out.append("".join(cur))
+    return out
+
+
 REGEX_REWRITES = [
+    # R9: std::cmp::min on usize -> prelude wrapper with a specification (generic Ord has no spec in vstd)
+    ("R9_cmp_min", r"\bstd::cmp::min\(", "usize_min("),
+    ("R9_cmp_min", r"(?<![\w:.])min\(", "usize_min("),
 ]
 
 
